@@ -56,6 +56,11 @@ def run(tier, seed, res, lean):
         res.violations.append(Violation(
             'c05-correspondence', 'NodeHash.value of the real code and hden of the model differ; theorems C05.* no longer tied to the code',
             {'suite': 'S-VM', 'theorems': list(lean['theorems']), **bad[0]}, found_input=False))
+    if stats['decode_vs_real_mismatch'] and not coll and not bad:
+        res.violations.append(Violation(
+            'c05-decode', 'on a plain graph the value returned by the real code is not decode(node hash): the theorem '
+            'CM.C05.hash_determines_value no longer describes the code', {'suite': 'S-VM', 'theorems': list(lean['theorems']),
+                                                                            'cases': stats['decode_bad'][:2]}, found_input=False))
     fam = {}
     for o in outs:
         for k, v in o[6].items():
@@ -65,6 +70,9 @@ def run(tier, seed, res, lean):
         'rule': RULE, 'programs': stats['cases'] + sum(fam.values()), 'disagreements_checked': len(bad),
         'samples': [{'family_variants': fam}],
         'distribution': {'kinds': stats['kinds'], 'variants': fam},
+        'theorem_instances': {'what': 'call steps on plain graphs (Graph.plainB, proved sound) where the value returned by the REAL code was '
+                              'compared with decode(hden) computed by the driver (CM.C05.hash_determines_value)',
+                              'checked': stats['decode_instances'], 'mismatches': stats['decode_vs_real_mismatch']},
     })
 
 
